@@ -60,6 +60,15 @@ Section Spec.
     forall a, exists fl s, crun C a p = Ret (fl, s) /\ length s = n * n /\
       firstn (S n) fl = Z.of_nat n :: repeat (Z.of_nat n) n /\
       veq (n * n) (abs_vec (c0 C) s) (fun k => inM l n 0 a (k / n) (k mod n)).
+  (** Display hands the caller's formatting parameters (sign, width, precision) down to every element: with "{:+9.2}"
+      every element carries the 7-character marker, in both layouts; and the whole output skeleton (line structure
+      and length) is the same for the row-major and the column-major matrix *)
+  Definition display_fmt_ok '(n, l, p, pf) :=
+    display_ok (n, l, pf) /\
+    forall a, exists fl s fl' s', crun C a p = Ret (fl, s) /\ crun C a pf = Ret (fl', s') /\
+      last fl' 0%Z = (last fl 0 + 7 * Z.of_nat (n * n))%Z.
+  Definition display_layout_ok '(pr, pc) :=
+    forall a b, exists fl s s', crun C a pr = Ret (fl, s) /\ crun C b pc = Ret (fl, s').
   (** as_row_slice on row-major / as_col_slice on column-major: the storage order itself *)
   Definition slice_ok '(n, l, p) :=
     yields_list (n * n) p (fun a k => match l with Lr => inM l n 0 a (k / n) (k mod n) | Lc => inM l n 0 a (k mod n) (k / n) end).
@@ -94,6 +103,12 @@ Section Spec.
   Definition t_default : tbl := [ (2, Lr, p_mat2r_default); (3, Lr, p_mat3r_default); (4, Lr, p_mat4r_default); (2, Lc, p_mat2c_default); (3, Lc, p_mat3c_default); (4, Lc, p_mat4c_default) ].
   Definition t_counts : tbl := [ (2, Lr, p_mat2r_counts); (3, Lr, p_mat3r_counts); (4, Lr, p_mat4r_counts); (2, Lc, p_mat2c_counts); (3, Lc, p_mat3c_counts); (4, Lc, p_mat4c_counts) ].
   Definition t_display : tbl := [ (2, Lr, p_mat2r_display); (3, Lr, p_mat3r_display); (4, Lr, p_mat4r_display); (2, Lc, p_mat2c_display); (3, Lc, p_mat3c_display); (4, Lc, p_mat4c_display) ].
+  Definition t_display_fmt : list (nat * layout * prog * prog) :=
+    [ (2, Lr, p_mat2r_display, p_mat2r_display_fmt); (3, Lr, p_mat3r_display, p_mat3r_display_fmt); (4, Lr, p_mat4r_display, p_mat4r_display_fmt);
+      (2, Lc, p_mat2c_display, p_mat2c_display_fmt); (3, Lc, p_mat3c_display, p_mat3c_display_fmt); (4, Lc, p_mat4c_display, p_mat4c_display_fmt) ].
+  Definition t_display_layout : list (prog * prog) :=
+    [ (p_mat2r_display, p_mat2c_display); (p_mat3r_display, p_mat3c_display); (p_mat4r_display, p_mat4c_display);
+      (p_mat2r_display_fmt, p_mat2c_display_fmt); (p_mat3r_display_fmt, p_mat3c_display_fmt); (p_mat4r_display_fmt, p_mat4c_display_fmt) ].
   Definition t_slice : tbl := [ (2, Lr, p_mat2r_as_row_slice); (3, Lr, p_mat3r_as_row_slice); (4, Lr, p_mat4r_as_row_slice); (4, Lr, p_mat4r_as_mut_row_slice);
                                 (2, Lc, p_mat2c_as_col_slice); (3, Lc, p_mat3c_as_col_slice); (4, Lc, p_mat4c_as_col_slice); (4, Lc, p_mat4c_as_mut_col_slice) ].
   Definition t_conv : list (nat * nat * layout * prog) :=
@@ -108,7 +123,8 @@ Section Spec.
   Definition C03_access_stmt : Prop :=
     Forall index_ok t_index /\ Forall index_mut_ok t_index_mut /\ Forall diagonal_ok t_diagonal /\ Forall trace_ok t_trace /\
     Forall into_row_ok t_into_row /\ Forall into_col_ok t_into_col /\ Forall slice_ok t_slice /\
-    Forall counts_ok t_counts /\ Forall display_ok t_display.
+    Forall counts_ok t_counts /\ Forall display_ok t_display /\
+    Forall display_fmt_ok t_display_fmt /\ Forall display_layout_ok t_display_layout.
   Definition C03_transform_stmt : Prop :=
     Forall transposed_ok t_transposed /\ Forall (map_ok 1) t_map1 /\ Forall (map2_ok 2) t_map2 /\ Forall same_ok t_as /\
     Forall (map_ok 3) t_map_lines /\ Forall from_transpose_ok t_from_transpose /\ Forall conv_ok t_conv.
